@@ -9,7 +9,7 @@ MANIFEST = dict(
 
 RULE = 'histories with extreme SEIDs, absent/undecodable Node ID and F-SEID IEs, unknown message types, reports for dead sessions'
 
-GEN = dict(weights=dict(mod=24, dele=12, srr=10, usa=10, dld=8, otherreq=6, otherrsp=6, hb=8), big_seids=True)
+GEN = dict(weights=dict(mod=24, dele=12, srr=10, usa=10, dld=8, otherreq=6, otherrsp=6, hb=8), big_seids=True, p_panic=0.25)
 N_QUICK, N_THOROUGH = 90, 3000
 
 
